@@ -106,10 +106,15 @@ def b_abs(it, x):
 
 def _minmax(it, args, kwargs, is_max):
     I = _I()
+    kwargs = dict(kwargs)
+    has_default = "default" in kwargs
+    default = kwargs.pop("default", None)
     if kwargs:
         raise SymError("min/max with key")
     xs = _lst(it, args[0]) if len(args) == 1 else list(args)
     if not xs:
+        if has_default and len(args) == 1:
+            return default
         raise I.IRaise(ValueError("min()/max() arg is an empty sequence"))
     xs = [npm.unwrap0(x) for x in xs]
     if all(not is_sym(x) for x in xs):
